@@ -4,6 +4,7 @@ package zzsimrt
 
 import (
 	"context"
+	mrand "math/rand"
 	"sync"
 	"time"
 )
@@ -175,6 +176,53 @@ func OnceValues[T1, T2 any](f func() (T1, T2), site int) func() (T1, T2) {
 		return v1, v2
 	}
 }
+
+// ---- math/rand's package-level generator, drawn from the tape (64 bits, byte by byte, so
+// that minimisation shrinks towards zero)
+
+func randBits(site int) (uint64, bool) {
+	s, _ := simTask()
+	if s == nil {
+		return 0, false
+	}
+	s.mu.Lock()
+	defer s.mu.Unlock()
+	var u uint64
+	for i := 0; i < 8; i++ {
+		u = u<<8 | uint64(s.tape.Choose(256))
+	}
+	return u, true
+}
+
+func RandUint64(site int) uint64 {
+	if u, ok := randBits(site); ok {
+		return u
+	}
+	return mrand.Uint64()
+}
+func RandUint32(site int) uint32   { return uint32(RandUint64(site) >> 32) }
+func RandInt63(site int) int64     { return int64(RandUint64(site) >> 1) }
+func RandInt64(site int) int64     { return int64(RandUint64(site) >> 1) }
+func RandInt31(site int) int32     { return int32(RandUint64(site) >> 33) }
+func RandInt32(site int) int32     { return int32(RandUint64(site) >> 33) }
+func RandInt(site int) int         { return int(uint(RandUint64(site)) >> 1) }
+func RandFloat64(site int) float64 { return float64(RandUint64(site)>>11) / (1 << 53) }
+func RandFloat32(site int) float32 { return float32(RandUint64(site)>>40) / (1 << 24) }
+
+func randn(n uint64, site int) uint64 {
+	if n == 0 {
+		panic("invalid argument to a math/rand function")
+	}
+	return RandUint64(site) % n
+}
+func RandIntn(n int, site int) int          { return int(randn(uint64(n), site)) }
+func RandInt31n(n int32, site int) int32    { return int32(randn(uint64(n), site)) }
+func RandInt32n(n int32, site int) int32    { return int32(randn(uint64(n), site)) }
+func RandInt63n(n int64, site int) int64    { return int64(randn(uint64(n), site)) }
+func RandInt64n(n int64, site int) int64    { return int64(randn(uint64(n), site)) }
+func RandUint32n(n uint32, site int) uint32 { return uint32(randn(uint64(n), site)) }
+func RandUint64n(n uint64, site int) uint64 { return randn(n, site) }
+func RandUintn(n uint, site int) uint       { return uint(randn(uint64(n), site)) }
 
 // CallCancel / CallCancelCause wrap calls of context cancel functions. Cancelling closes the
 // context's Done channel inside package context, out of the monitor's sight: whoever then
